@@ -40,6 +40,9 @@ def claimed():
 def main():
     pid = sys.argv[1]
     keep = '--keep' in sys.argv
+    rnd = 2 if '--round2' in sys.argv else 1
+    if rnd == 2:
+        return round2(pid, keep)
     outdir = '/tmp/seed/%s_out' % pid
     diffs = sorted(glob.glob(outdir + '/change*.diff'))
     os.makedirs('/tmp/seedchk', exist_ok=True)
@@ -125,6 +128,91 @@ def main():
         if r.get('demo_msg'):
             print('          demo: %s' % r['demo_msg'][0][:200])
     json.dump(rows, open('/tmp/seedchk/%s_rows.json' % pid, 'w'), indent=1, default=str)
+
+
+def run_checks(tree, props):
+    det = {}
+    for p in props:
+        rc, out = sh(['/verif/check', p, '--repo', tree])
+        if rc != 0:
+            lines = [l.strip() for l in out.splitlines() if l.strip().startswith(('rule', 'ANALYSIS'))]
+            det[p] = (rc, lines[:2])
+    return det
+
+
+def round2(pid, keep):
+    """/tmp/seed2/<pid>_out: bug1.diff bug2.diff benign1.diff benign2.diff demo1.py demo2.py notes.txt"""
+    outdir = '/tmp/seed2/%s_out' % pid
+    os.makedirs('/tmp/seedchk', exist_ok=True)
+    clean = '/tmp/seedchk/%s_clean' % pid
+    sh(['git', '-C', '/repo', 'worktree', 'remove', '--force', clean])
+    sh(['git', '-C', '/repo', 'worktree', 'add', '--detach', clean, 'HEAD'])
+    props = claimed()
+    notes = open(outdir + '/notes.txt').read() if os.path.exists(outdir + '/notes.txt') else ''
+    try:
+        for kind, i in (('bug', 1), ('bug', 2), ('benign', 1), ('benign', 2)):
+            d = '%s/%s%d.diff' % (outdir, kind, i)
+            if not os.path.exists(d):
+                print('%s-%s%d  MISSING' % (pid, kind, i))
+                continue
+            tree = '/tmp/seedchk/%s_%s%d' % (pid, kind, i)
+            sh(['git', '-C', '/repo', 'worktree', 'remove', '--force', tree])
+            sh(['git', '-C', '/repo', 'worktree', 'add', '--detach', tree, 'HEAD'])
+            try:
+                rc, out = sh(['git', '-C', tree, 'apply', d])
+                if rc != 0:
+                    print('%s-%s%d  does not apply: %s' % (pid, kind, i, out[-200:]))
+                    continue
+                ok, line = baseline_ok(tree)
+                demos = {}
+                for j in (1, 2):
+                    demo = '%s/demo%d.py' % (outdir, j)
+                    if os.path.exists(demo):
+                        rc_c, _ = sh([PY, demo, clean], timeout=600)
+                        rc_m, out_m = sh([PY, demo, tree], timeout=600)
+                        demos[j] = (rc_c, rc_m, [l for l in out_m.splitlines() if l.startswith('FAIL')][:1])
+                det = run_checks(tree, props)
+                if kind == 'bug':
+                    conf = bool(ok) and demos.get(i, (1, 0))[0] == 0 and demos.get(i, (1, 0))[1] == 1
+                else:
+                    conf = bool(ok) and all(v[0] == 0 and v[1] == 0 for v in demos.values())
+                print('%s-%s%d base30=%s demos(clean,changed)=%s CONFIRMED=%s own=%s detected_by=%s' % (
+                    pid, kind, i, bool(ok), {k: v[:2] for k, v in demos.items()}, conf,
+                    det.get(pid, (0,))[0], {k: v[0] for k, v in det.items()} or '-'))
+                for k, v in det.items():
+                    for l in v[1][:1]:
+                        print('          %s: %s' % (k, l[:260]))
+                if keep and conf:
+                    dst = '/verif/seeded/%s-r2-%s%d' % (pid, kind, i)
+                    os.makedirs(dst, exist_ok=True)
+                    shutil.copy(d, dst + '/patch.diff')
+                    for j in (1, 2):
+                        demo = '%s/demo%d.py' % (outdir, j)
+                        if os.path.exists(demo) and (kind == 'benign' or j == i):
+                            shutil.copy(demo, dst + ('/demo.py' if kind == 'bug' else '/demo%d.py' % j))
+                    meta = {
+                        'property': pid, 'seed_id': '%s-r2-%s%d' % (pid, kind, i),
+                        'kind': 'property-breaking change' if kind == 'bug' else
+                                'behaviour-preserving refactoring (must stay silent)',
+                        'origin': 'independent sub-agent (round 2) given only the property text and a scratch worktree',
+                        'notes_from_author': notes,
+                        'confirmed': {
+                            'applies_to': subprocess.run(['git', '-C', '/repo', 'rev-parse', '--short', 'HEAD'],
+                                                         capture_output=True, text=True).stdout.strip(),
+                            'baseline': line,
+                            'demos_exit(clean, changed)': {str(k): v[:2] for k, v in demos.items()},
+                            'commands': ['git apply patch.diff (scratch worktree of /repo HEAD)', ' '.join(PYTEST),
+                                         '/venv/bin/python demo*.py <tree>'],
+                        },
+                        'checks_run': './check <each property> --repo <changed tree>',
+                        'detected_by': {k: {'exit': v[0], 'report': v[1]} for k, v in det.items()},
+                    }
+                    json.dump(meta, open(dst + '/meta.json', 'w'), indent=1)
+            finally:
+                sh(['git', '-C', '/repo', 'worktree', 'remove', '--force', tree])
+    finally:
+        sh(['git', '-C', '/repo', 'worktree', 'remove', '--force', clean])
+        sh(['git', '-C', '/repo', 'worktree', 'prune'])
 
 
 if __name__ == '__main__':
